@@ -1,8 +1,8 @@
 import TongoModel.Merkle
-/-! Helper lemmas for C18: byte/bit round trip, pruned branches answer with what they store, level-0 hash and depth
-are invariant under pruning, `pruneCells` = `specPrune`. -/
 import TongoProofs.Lemmas.CellHashTree
 import TongoProofs.Lemmas.Bits
+/-! Helper lemmas for C18: byte/bit round trip, pruned branches answer with what they store, level-0 hash and depth
+are invariant under pruning, `pruneCells` = `specPrune`. -/
 open Tongo
 
 namespace Tongo.MerkleLemmas
@@ -200,5 +200,121 @@ theorem pruneList_eq (H : List UInt8 → List UInt8) (P : List Nat → Bool) :
       Outcome.bind_ok, specPruneList]
     rfl
 end
+
+theorem prunedCell_wf (h : List UInt8) (d : Nat) (hh : h.length = 32) :
+    Spec.wfExotic (prunedCell h d) = true ∧ (prunedCell h d).mask = 1 := by
+  constructor
+  · simp only [prunedCell, Spec.wfExotic, Spec.wfExoticL, Bool.and_true, Spec.wfNode, popcount_one,
+      bytesToBits_length, List.length_append, hh, be16_length, List.length_cons, List.length_nil]
+    decide
+  · rfl
+
+theorem orMasks_le_one (cs : List Cell) (m : Nat) (hm : m ≤ 1) (h : ∀ c ∈ cs, c.mask ≤ 1) :
+    cs.foldl (fun m k => m ||| k.mask) m ≤ 1 := by
+  induction cs generalizing m with
+  | nil => exact hm
+  | cons c t ih =>
+    simp only [List.foldl_cons]
+    apply ih
+    · have h1 : c.mask ≤ 1 := h c (by simp)
+      have : m ||| c.mask < 2 ^ 1 := Nat.or_lt_two_pow (by omega) (by omega)
+      omega
+    · intro c' hc'; exact h c' (by simp [hc'])
+
+mutual
+theorem specPrune_wf (H : List UInt8 → List UInt8) (hH : H32 H) (P : List Nat → Bool) :
+    ∀ (c : Cell) (path : List Nat), plain c = true →
+      Spec.wfExotic (specPrune H P path c) = true ∧ (specPrune H P path c).mask ≤ 1
+  | .mk ty mask bits refs, path, hp => by
+    obtain ⟨hty, hm, hwf, hpl⟩ := plain_node hp
+    by_cases hP : P path = true
+    · simp only [specPrune, hP, if_true]
+      have hh : (Spec.hashAt H (.mk ty mask bits refs) 0).length = 32 := by
+        simp only [Spec.hashAt, (hashLevel_zero H hty mask bits _ _).1]; exact hH _
+      obtain ⟨w1, w2⟩ := prunedCell_wf _ (Spec.depthAt (.mk ty mask bits refs) 0) hh
+      exact ⟨w1, Nat.le_of_eq w2⟩
+    · obtain ⟨l1, l2, l3⟩ := specPruneList_wf H hH P refs path 0 hpl
+      subst hm
+      have hle := orMasks_le_one (specPruneList H P path 0 refs) 0 (by omega) l2
+      simp only [specPrune, hP, Bool.false_eq_true, if_false, Spec.wfExotic, Bool.and_eq_true]
+      refine ⟨⟨?_, l1⟩, hle⟩
+      simp only [Spec.wfNode, Bool.and_eq_true, decide_eq_true_eq] at hwf ⊢
+      obtain ⟨⟨⟨_, hb⟩, hk⟩, hc⟩ := hwf
+      refine ⟨⟨⟨by omega, hb⟩, by rw [l3]; exact hk⟩, ?_⟩
+      rcases hty with rfl | rfl
+      · simp [Spec.orMasks]
+      · simp only [show tyLibrary ≠ tyOrdinary from by decide, show tyLibrary ≠ tyPruned from by decide, if_false,
+          if_true, Bool.and_eq_true, beq_iff_eq, List.isEmpty_iff] at hc ⊢
+        obtain ⟨⟨hr, _⟩, hbl⟩ := hc
+        subst hr
+        simp [specPruneList, hbl]
+theorem specPruneList_wf (H : List UInt8 → List UInt8) (hH : H32 H) (P : List Nat → Bool) :
+    ∀ (cs : List Cell) (path : List Nat) (i : Nat), plainL cs = true →
+      Spec.wfExoticL (specPruneList H P path i cs) = true ∧ (∀ c ∈ specPruneList H P path i cs, c.mask ≤ 1) ∧
+      (specPruneList H P path i cs).length = cs.length
+  | [], _, _, _ => ⟨rfl, by simp [specPruneList], rfl⟩
+  | c :: cs, path, i, hp => by
+    simp only [plainL, Bool.and_eq_true] at hp
+    obtain ⟨a1, a2⟩ := specPrune_wf H hH P c (path ++ [i]) hp.1
+    obtain ⟨b1, b2, b3⟩ := specPruneList_wf H hH P cs path (i + 1) hp.2
+    refine ⟨by simp [specPruneList, Spec.wfExoticL, a1, b1], ?_, by simp [specPruneList, b3]⟩
+    intro c' hc'
+    simp only [specPruneList, List.mem_cons] at hc'
+    rcases hc' with rfl | hc'
+    · exact a2
+    · exact b2 c' hc'
+end
+
+
+open Tongo.CellHashLemmas in
+/-- what `createProof` returns, when it returns: the Merkle-proof cell over the specified pruned tree, carrying the
+level-0 hash and depth (by the definition) of the original root; it is well-formed and the hashing model accepts it -/
+theorem createProof_ok (H : List UInt8 → List UInt8) (hH : H32 H) (P : List Nat → Bool) (root : Cell)
+    (hp : plain root = true) {proof : Cell} (h : createProof H P root = .ok proof) :
+    Spec.tooDeep root = false ∧
+    proof = proofCell (Spec.hashAt H root 0) (Spec.depthAt root 0) (specPrune H P [] root) ∧
+    Spec.wfExotic proof = true ∧ Spec.tooDeep proof = false := by
+  have hws := wfExotic_wfSizes _ (plain_wfExotic _ hp)
+  have g := good_cell H root hws
+  cases hd : Spec.tooDeep root with
+  | true =>
+    simp only [createProof, g.2 hd] at h
+    cases h
+  | false =>
+    obtain ⟨info, e, _, _, _, hmatch⟩ := g.1 hd
+    obtain ⟨m1, m2⟩ := hmatch 0 (by omega)
+    simp only [createProof, e, Outcome.bind_ok, pruneCells_eq H P root [] hp hd, m1, m2] at h
+    obtain ⟨w1, w2⟩ := specPrune_wf H hH P root [] hp
+    have hh : (Spec.hashAt H root 0).length = 32 := by
+      cases root with
+      | mk ty mask bits refs =>
+        obtain ⟨hty, _⟩ := plain_node hp
+        simp only [Spec.hashAt, (hashLevel_zero H hty mask bits _ _).1]; exact hH _
+    have hwf : Spec.wfExotic (proofCell (Spec.hashAt H root 0) (Spec.depthAt root 0) (specPrune H P [] root)) = true := by
+      have hm : (0 ||| (specPrune H P [] root).mask) >>> 1 = 0 := by
+        have : (specPrune H P [] root).mask = 0 ∨ (specPrune H P [] root).mask = 1 := by omega
+        rcases this with h0 | h1
+        · rw [h0]; rfl
+        · rw [h1]; rfl
+      simp only [proofCell, Spec.wfExotic, Spec.wfExoticL, w1, Bool.and_true, Spec.wfNode, bytesToBits_length,
+        List.length_append, hh, be16_length, List.length_cons, List.length_nil, Spec.orMasks, List.foldl_cons,
+        List.foldl_nil, hm, show tyMerkleProof ≠ tyOrdinary from by decide, show tyMerkleProof ≠ tyPruned from by decide,
+        show tyMerkleProof ≠ tyLibrary from by decide, if_false, if_true]
+      rfl
+    cases hr : Cell.reprHash H (proofCell (Spec.hashAt H root 0) (Spec.depthAt root 0) (specPrune H P [] root)) with
+    | ok x =>
+      rw [hr] at h
+      simp only [Outcome.bind_ok, pure] at h
+      cases h
+      refine ⟨rfl, rfl, hwf, ?_⟩
+      -- hashing succeeded, so the proof is not too deep
+      have g' := good_cell H _ (wfExotic_wfSizes _ hwf)
+      cases hd' : Spec.tooDeep (proofCell (Spec.hashAt H root 0) (Spec.depthAt root 0) (specPrune H P [] root)) with
+      | false => rfl
+      | true =>
+        simp only [Cell.reprHash, g'.2 hd'] at hr
+        cases hr
+    | err x => rw [hr] at h; cases h
+    | panic x => rw [hr] at h; cases h
 
 end Tongo.MerkleLemmas
